@@ -597,13 +597,10 @@ HistOnCanon ==
 MatchedAtRightHeight ==
     \A i \in 1..Len(mdb) : \A j \in 1..Len(mdb[i][3]) :
         LET b == mdb[i][3][j][1] IN
-        \/ "KF-C06-blockhash" \in cfg.allow /\ b \in subst
-        \* KF-C04-spanning-record: the record was pending when the chain forked inside its range; the blocks above
-        \* the fork block are those of the abandoned branch
-        \/ /\ "KF-C04-spanning-record" \in cfg.allow
-           /\ b >= 1 /\ ~IsAnc(world, b, tip)
-           /\ mdb[i][1] <= Num(world, b) /\ Num(world, b) < mdb[i][1] + mdb[i][2]
-           /\ Num(world, CommonAnc(world, b, tip)) >= mdb[i][1]
+        \/ "KF-C06-blockhash" \in cfg.allow /\ b \in subst /\ b > 0
+        \* KF-C04-spanning-record: the record was pending when the chain forked inside its range and was kept; its
+        \* blocks of the abandoned branch are remembered (negated) in the history variable subst
+        \/ /\ "KF-C04-spanning-record" \in cfg.allow /\ (0 - b) \in subst
            /\ (TLCGet(44) = 0 => TLCSet(44, 1) /\ PrintT(<<"KNOWN-FINDING", "KF-C04-spanning-record", mdb[i], b>>))
         \/ /\ b >= 1
            /\ mdb[i][1] <= Num(world, b) /\ Num(world, b) < mdb[i][1] + mdb[i][2]
@@ -655,7 +652,14 @@ FetchedTruthful ==
 IndexInv == CellsSound /\ HistOnCanon /\ ScriptsNumberHonest
 
 \* once a substituted block hash was accepted (KF-C06-blockhash) the rest of the scenario cannot be complete
-Tainted == "KF-C06-blockhash" \in cfg.allow /\ subst # {}
+Tainted == \/ "KF-C06-blockhash" \in cfg.allow /\ \E x \in subst : x > 0
+           \/ "KF-C04-spanning-record" \in cfg.allow /\ \E x \in subst : x < 0
+
+\* the blocks of the abandoned branch that stay in kept matched-block records when the tip changes branch
+SpanKept ==
+    IF tip' = tip THEN {}
+    ELSE {0 - b : b \in {x \in UNION {{mdb'[i][3][j][1] : j \in 1..Len(mdb'[i][3])} : i \in 1..Len(mdb')} :
+                            x >= 1 /\ ~IsAnc(world, x, tip')}}
 
 Quiet == mdb = <<>> /\ mmem = {} /\ minF = Num(world, tip) /\ \A e \in scripts : e[2] = minF
 =============================================================================
